@@ -4,27 +4,33 @@ From God Require Import Base.Prelude C02.Model C02.Spec.
 Local Open Scope Z_scope.
 
 (* ================================================================== sequential handler semantics *)
-(* what RecoverHandler's deferred function leaves behind: (tw, panic escaped) *)
-Definition recover_write (t : tw) : tw * bool :=
-  match write_header_locked t statusInternalServerError with Ok t' => (t', false) | _ => (t, true) end.
+(* how the handler goroutine ends: close(done) / panicChan <- p / neither (an unseen panic without Recover) *)
+Inductive hend := EDone | EPanic | EStuck.
 
-(* the handler goroutine run to its end without interference: final tw and "panic sent to panicChan" *)
-Fixpoint hexec (recover : bool) (t : tw) (acts : list action) : tw * bool :=
+(* what RecoverHandler's deferred function leaves behind *)
+Definition recover_write (t : tw) : tw * hend :=
+  match write_header_locked t statusInternalServerError with Ok t' => (t', EDone) | _ => (t, EPanic) end.
+
+(* the handler goroutine run to its end without interference: final tw and how it ended *)
+Fixpoint hexec (recover : bool) (t : tw) (acts : list action) : tw * hend :=
   match acts with
-  | [] => (t, false)
+  | [] => (t, EDone)
   | a :: r =>
       let (t', o) := do_action t a in
       match o with
-      | OPanic => if recover then recover_write t' else (t', true)
+      | OPanic =>
+          let seen := recover_sees (panic_value_of a) in
+          if recover then (if seen then recover_write t' else (t', EDone))
+          else (t', if seen then EPanic else EStuck)
       | _ => hexec recover t' r
       end
   end.
 
-Definition hfin (recover : bool) (t : tw) (pc : hpc) (panicked : bool) : tw * bool :=
+Definition hfin (recover : bool) (t : tw) (pc : hpc) (done panicked : bool) : tw * hend :=
   match pc with
   | HRun acts => hexec recover t acts
   | HRecover => recover_write t
-  | HDead => (t, panicked)
+  | HDead => (t, if panicked then EPanic else if done then EDone else EStuck)
   end.
 
 (* status that the done arm sends for a finished tw *)
@@ -62,33 +68,42 @@ Lemma whl_500 t : tw_timedOut t = false ->
 Proof. intro E. unfold write_header_locked. simpl. rewrite E. destruct (tw_wroteHeader t); reflexivity. Qed.
 
 (* ---------------------------------------------------------------- refinement of the sequential run to Spec *)
-Lemma hexec_spec recover : forall acts t tf p,
+Lemma first_panic_has acts : has_panic acts = match first_panic acts with Some _ => true | None => false end.
+Proof. induction acts as [|a r IH]; simpl; [reflexivity|]. destruct (panics a); simpl; auto. Qed.
+
+Lemma hexec_spec recover : forall acts t tf e,
   tw_timedOut t = false ->
-  hexec recover t acts = (tf, p) ->
-  p = has_panic acts && negb recover /\
+  hexec recover t acts = (tf, e) ->
+  e = (if has_panic acts && negb recover then (if panic_seen recover_sees acts then EPanic else EStuck) else EDone) /\
   tw_timedOut tf = false /\
   tw_h tf = fold_left hdr_op (effective acts) (tw_h t) /\
   tw_wbuf tf = tw_wbuf t ++ spec_body (effective acts) /\
   fcode tf = (if tw_wroteHeader t then tw_code t
               else match commit_status (effective acts) with
                    | Some c => c
-                   | None => if has_panic acts && recover then statusInternalServerError else statusOK
+                   | None => if panic_seen recover_sees acts && recover then statusInternalServerError else statusOK
                    end).
 Proof.
-  induction acts as [|a r IH]; intros t tf p E H.
+  induction acts as [|a r IH]; intros t tf e E H.
   - simpl in H. inversion H; subst. simpl. rewrite app_nil_r. unfold fcode. repeat split; auto.
     all: try (destruct (tw_wroteHeader tf); reflexivity).
-  - assert (Hpanic : forall t', tw_timedOut t' = false -> tw_h t' = tw_h t -> tw_wbuf t' = tw_wbuf t ->
+  - (* what a panicking action leaves: t' agrees with t on everything the done arm reads *)
+    assert (Hpanic : forall t' v, tw_timedOut t' = false -> tw_h t' = tw_h t -> tw_wbuf t' = tw_wbuf t ->
                        tw_wroteHeader t' = tw_wroteHeader t -> tw_code t' = tw_code t ->
-                       (if recover then recover_write t' else (t', true)) = (tf, p) ->
-                       p = true && negb recover /\ tw_timedOut tf = false /\ tw_h tf = tw_h t /\
+                       (if recover then (if recover_sees v then recover_write t' else (t', EDone))
+                        else (t', if recover_sees v then EPanic else EStuck)) = (tf, e) ->
+                       e = (if true && negb recover then (if recover_sees v then EPanic else EStuck) else EDone) /\
+                       tw_timedOut tf = false /\ tw_h tf = tw_h t /\
                        tw_wbuf tf = tw_wbuf t ++ [] /\
-                       fcode tf = (if tw_wroteHeader t then tw_code t else if true && recover then statusInternalServerError else statusOK)).
-    { intros t' E' Hh Hb Hw Hc HH. rewrite app_nil_r. destruct recover; simpl.
-      - unfold recover_write in HH. rewrite whl_500 in HH by assumption. inversion HH; subst. unfold fcode.
-        destruct (tw_wroteHeader t') eqn:W; rewrite <- Hw; simpl; rewrite ?W; repeat split; auto.
-      - inversion HH; subst. unfold fcode. rewrite Hw, Hc. repeat split; auto. }
-    destruct a; simpl in H |- *.
+                       fcode tf = (if tw_wroteHeader t then tw_code t
+                                   else if recover_sees v && recover then statusInternalServerError else statusOK)).
+    { intros t' v E' Hh Hb Hw Hc HH. rewrite app_nil_r. destruct recover; simpl.
+      - destruct (recover_sees v); simpl.
+        + unfold recover_write in HH. rewrite whl_500 in HH by assumption. inversion HH; subst. unfold fcode.
+          destruct (tw_wroteHeader t') eqn:W; rewrite <- Hw; simpl; rewrite ?W; repeat split; auto.
+        + inversion HH; subst. unfold fcode. rewrite Hw, Hc. repeat split; auto.
+      - rewrite andb_false_r. inversion HH; subst. unfold fcode. rewrite Hw, Hc. repeat split; auto. }
+    unfold panic_seen in IH |- *. destruct a; simpl in H |- *.
     + (* SetHeader *) apply IH in H; [|assumption]. simpl in H. exact H.
     + apply IH in H; [|assumption]. simpl in H. exact H.
     + apply IH in H; [|assumption]. simpl in H. exact H.
@@ -97,47 +112,50 @@ Proof.
       * rewrite E in H. destruct (tw_wroteHeader t) eqn:W.
         -- apply IH in H; [|assumption]. rewrite W in H. simpl. exact H.
         -- apply IH in H; [|reflexivity]. simpl in H. exact H.
-      * apply Hpanic in H; auto.
+      * apply (Hpanic t PVString) in H; auto.
     + (* Write *)
       unfold tw_write, write_header_locked in H. rewrite E in H. destruct (tw_wroteHeader t) eqn:W; simpl in H.
       * apply IH in H; [|assumption]. simpl in H. rewrite W in H. rewrite <- app_assoc in H. exact H.
       * rewrite ?E in H. simpl in H. apply IH in H; [|reflexivity]. simpl in H. rewrite <- app_assoc in H. exact H.
-    + (* PanicA *) apply Hpanic in H; auto.
+    + (* PanicA *) apply (Hpanic t v) in H; auto.
 Qed.
 
 Definition resp_of (rh0 : hdrs) (t : tw) : response := mkresp (fcode t) (hmerge rh0 (tw_h t)) (tw_wbuf t).
 
 Lemma hexec_response recover rh0 acts tf :
-  hexec recover tw0 acts = (tf, false) -> handler_response recover rh0 acts = Some (resp_of rh0 tf).
+  hexec recover tw0 acts = (tf, EDone) -> handler_response recover rh0 acts = Some (resp_of rh0 tf).
 Proof.
   intro H. apply hexec_spec in H as (Hp & _ & Hh & Hb & Hc); [|reflexivity].
-  unfold handler_response. rewrite <- Hp. unfold resp_of. rewrite Hh, Hb, Hc. simpl.
+  unfold handler_response, handler_response_gen. unfold resp_of. rewrite Hh, Hb, Hc. simpl.
   unfold spec_headers. destruct (has_panic acts) eqn:P; simpl in *.
-  - destruct recover; [reflexivity|discriminate].
-  - reflexivity.
+  - destruct recover; simpl in *; [rewrite andb_true_r; reflexivity|].
+    destruct (panic_seen recover_sees acts); discriminate.
+  - assert (Q : panic_seen recover_sees acts = false).
+    { unfold panic_seen. rewrite first_panic_has in P. destruct (first_panic acts); [discriminate|reflexivity]. }
+    rewrite Q. reflexivity.
 Qed.
 
-Lemma hexec_panics recover rh0 acts tf :
-  hexec recover tw0 acts = (tf, true) -> handler_response recover rh0 acts = None /\ recover = false.
+Lemma hexec_panics recover rh0 acts tf e :
+  hexec recover tw0 acts = (tf, e) -> e <> EDone -> handler_response recover rh0 acts = None /\ recover = false.
 Proof.
-  intro H. apply hexec_spec in H as (Hp & _); [|reflexivity]. unfold handler_response. rewrite <- Hp.
-  split; [reflexivity|]. destruct recover; [|reflexivity]. rewrite andb_false_r in Hp. discriminate.
+  intros H N. apply hexec_spec in H as (Hp & _); [|reflexivity]. unfold handler_response, handler_response_gen.
+  destruct (has_panic acts && negb recover) eqn:Q; [|congruence].
+  split; [reflexivity|]. destruct recover; [|reflexivity]. rewrite andb_false_r in Q. discriminate.
 Qed.
 
 (* ================================================================== the invariant of the timeout LTS *)
 Definition flags (s : state) : Prop :=
   (st_done s = true -> st_h s = HDead /\ st_panicked s = false) /\
-  (st_panicked s = true -> st_h s = HDead /\ st_done s = false) /\
-  (st_h s = HDead -> st_done s = true \/ st_panicked s = true).
+  (st_panicked s = true -> st_h s = HDead /\ st_done s = false).
 
 Definition Inv (recover : bool) (rh0 : hdrs) (acts : list action) (s : state) : Prop :=
   flags s /\
   match st_sel s with
   | None =>            (* real writer untouched while not selected; the handler's future is its sequential run *)
       st_rw s = mkrw rh0 [] /\ tw_timedOut (st_tw s) = false /\
-      hfin recover (st_tw s) (st_h s) (st_panicked s) = hexec recover tw0 acts
-  | Some ArmPanic => st_rw s = mkrw rh0 [] /\ st_panicked s = true /\ snd (hexec recover tw0 acts) = true
-  | Some ArmDone => st_done s = true /\ exists tf, hexec recover tw0 acts = (tf, false) /\ st_rw s = done_rw rh0 tf
+      hfin recover (st_tw s) (st_h s) (st_done s) (st_panicked s) = hexec recover tw0 acts
+  | Some ArmPanic => st_rw s = mkrw rh0 [] /\ st_panicked s = true /\ snd (hexec recover tw0 acts) = EPanic
+  | Some ArmDone => st_done s = true /\ exists tf, hexec recover tw0 acts = (tf, EDone) /\ st_rw s = done_rw rh0 tf
   | Some ArmFired => exists c, st_fired s = Some c /\ st_rw s = timeout_rw c rh0 /\ tw_timedOut (st_tw s) = true
   end.
 
@@ -146,7 +164,7 @@ Proof. unfold Inv, flags, init; simpl. repeat split; try discriminate; auto. Qed
 
 Lemma flags_alive s : flags s -> st_h s <> HDead -> st_done s = false /\ st_panicked s = false.
 Proof.
-  intros (F1 & F2 & _) N. split.
+  intros (F1 & F2) N. split.
   - destruct (st_done s); [destruct (F1 eq_refl); contradiction|reflexivity].
   - destruct (st_panicked s); [destruct (F2 eq_refl); contradiction|reflexivity].
 Qed.
@@ -196,13 +214,16 @@ Qed.
 
 Lemma h_step_hfin recover s s' :
   flags s -> tw_timedOut (st_tw s) = false -> h_step recover s = Some s' ->
-  hfin recover (st_tw s') (st_h s') (st_panicked s') = hfin recover (st_tw s) (st_h s) (st_panicked s).
+  hfin recover (st_tw s') (st_h s') (st_done s') (st_panicked s') = hfin recover (st_tw s) (st_h s) (st_done s) (st_panicked s).
 Proof.
-  unfold h_step. intros (F1 & F2 & F3) E H. destruct (st_h s) as [[|a rest]| |] eqn:Eh; [| | |discriminate].
-  - inversion H; subst; simpl. destruct (st_panicked s) eqn:P; [|reflexivity]. destruct (F2 eq_refl); discriminate.
+  intros F E H. unfold h_step in H. destruct (st_h s) as [[|a rest]| |] eqn:Eh; [| | |discriminate];
+    (destruct (flags_alive s F) as [Dn Pn]; [rewrite Eh; discriminate|]).
+  - inversion H; subst; simpl. rewrite Pn. reflexivity.
   - simpl. destruct (do_action (st_tw s) a) as [t' o].
     destruct o; try (inversion H; subst; reflexivity).
-    destruct recover; inversion H; subst; reflexivity.
+    destruct recover; inversion H; subst; simpl; rewrite ?Dn.
+    + destruct (recover_sees (panic_value_of a)); reflexivity.
+    + destruct (recover_sees (panic_value_of a)); reflexivity.
   - simpl. unfold recover_write. destruct (write_header_locked (st_tw s) statusInternalServerError);
       inversion H; subst; reflexivity.
 Qed.
@@ -214,7 +235,7 @@ Proof.
   - (* handler step *)
     pose proof (h_step_flags _ _ _ F H) as F'. pose proof (h_step_frame _ _ _ H) as (Erw & Efi & Esel).
     split; [assumption|]. rewrite Esel. destruct (st_sel s) as [[| |]|].
-    + (* ArmPanic: handler is dead *) destruct I as (_ & P & _). destruct F as (_ & F2 & _).
+    + (* ArmPanic: handler is dead *) destruct I as (_ & P & _). destruct F as (_ & F2).
       destruct (F2 P) as [D _]. rewrite (h_step_dead_none _ _ D) in H. discriminate.
     + destruct I as (D & _). destruct F as (F1 & _). destruct (F1 D) as [Dd _].
       rewrite (h_step_dead_none _ _ Dd) in H. discriminate.
@@ -232,10 +253,10 @@ Proof.
     destruct a.
     + destruct (st_panicked s) eqn:P; [|discriminate]. inversion H; subst; clear H.
       split; [apply (flags_ext s); simpl; auto|]. simpl.
-      repeat split; auto. destruct F as (_ & F2 & _). destruct (F2 P) as [D _]. rewrite D in Hf. simpl in Hf.
+      repeat split; auto. destruct F as (_ & F2). destruct (F2 P) as [D _]. rewrite D in Hf. simpl in Hf.
       rewrite <- Hf. reflexivity.
     + destruct (st_done s) eqn:D; [|discriminate]. inversion H; subst; clear H.
-      pose proof F as (F1 & F2 & F3). destruct (F1 D) as [Dd Pn]. rewrite Dd, Pn in Hf. simpl in Hf.
+      pose proof F as (F1 & F2). destruct (F1 D) as [Dd Pn]. rewrite Dd, Pn in Hf. simpl in Hf.
       split; [apply (flags_ext s); simpl; auto|].
       unfold flush_done; simpl. split; [assumption|]. exists (st_tw s). split; [symmetry; exact Hf|].
       rewrite Hrw. reflexivity.
@@ -272,7 +293,7 @@ Lemma classify recover rh0 acts s : reachable recover rh0 acts s ->
 Proof.
   intro R. apply reachable_inv in R as [F I]. destruct (st_sel s) as [[| |]|].
   - destruct I as (Hrw & P & Hx). split; [assumption|]. destruct (hexec recover tw0 acts) as [tf p] eqn:E.
-    simpl in Hx. subst p. eapply hexec_panics; eauto.
+    simpl in Hx. subst p. eapply hexec_panics; [exact E|discriminate].
   - destruct I as (D & tf & Hx & Hrw). exists (resp_of rh0 tf). split; [apply hexec_response; assumption|].
     rewrite Hrw. split; reflexivity.
   - destruct I as (c & Hc & Hrw & Ht). exists c. rewrite Hrw. repeat split; auto.
@@ -409,7 +430,8 @@ Proof.
   - pose proof (h_step_frame _ _ _ H) as (_ & Ef & Es). unfold measure. rewrite Ef, Es.
     unfold h_step in H. destruct (st_h s) as [[|a rest]| |]; [| | |discriminate].
     + inversion H; subst; simpl. lia.
-    + destruct (do_action (st_tw s) a) as [t' o]. destruct o; [| | |destruct recover]; inversion H; subst; simpl; lia.
+    + destruct (do_action (st_tw s) a) as [t' o]. destruct o; [| | |destruct recover]; inversion H; subst; simpl;
+        try destruct (recover_sees (panic_value_of a)); simpl; lia.
     + destruct (write_header_locked (st_tw s) statusInternalServerError); inversion H; subst; simpl; lia.
   - unfold fire_step in H. unfold measure. destruct (st_fired s); [discriminate|]. inversion H; subst; simpl.
     destruct (st_h s); destruct (st_sel s); lia.
@@ -425,20 +447,45 @@ Proof.
   destruct (step recover l s) as [s1|] eqn:E; [|discriminate]. apply step_measure in E. apply IH in H. lia.
 Qed.
 
-Lemma progress recover rh0 acts s :
-  reachable recover rh0 acts s -> terminal s = false ->
-  (exists s', step recover LH s = Some s') \/ (exists a s', step recover (LSel a) s = Some s').
+(* with Recover inside, a dead handler goroutine has always closed `done` *)
+Lemma recover_dead_done ls : forall s s',
+  (st_h s = HDead -> st_done s = true) -> run true ls s = Some s' -> (st_h s' = HDead -> st_done s' = true).
 Proof.
-  intros R T. apply reachable_inv in R as [(F1 & F2 & F3) _]. unfold terminal in T. simpl.
+  induction ls as [|l r IH]; simpl; intros s s' J H; [inversion H; subst; assumption|].
+  destruct (step true l s) as [s1|] eqn:E; [|discriminate]. eapply IH; [|exact H]. clear IH H.
+  destruct l as [|c|a]; simpl in E.
+  - unfold h_step in E. destruct (st_h s) as [[|a rest]| |]; [| | |discriminate].
+    + inversion E; subst; simpl; auto.
+    + destruct (do_action (st_tw s) a) as [t' o]. destruct o; inversion E; subst; simpl; try discriminate.
+      destruct (recover_sees (panic_value_of a)); discriminate.
+    + destruct (whl_500_ok (st_tw s)) as [t' W]. rewrite W in E. inversion E; subst; simpl; discriminate.
+  - unfold fire_step in E. destruct (st_fired s); [discriminate|]. inversion E; subst; assumption.
+  - unfold sel_step in E. destruct (st_sel s); [discriminate|]. destruct a.
+    + destruct (st_panicked s); [|discriminate]. inversion E; subst; assumption.
+    + destruct (st_done s) eqn:D; [|discriminate]. inversion E; subst; simpl; auto.
+    + destruct (st_fired s); [|discriminate]. inversion E; subst; assumption.
+Qed.
+
+Lemma progress rh0 acts s :
+  reachable true rh0 acts s -> terminal s = false ->
+  (exists s', step true LH s = Some s') \/ (exists a s', step true (LSel a) s = Some s').
+Proof.
+  intros [ls R] T. pose proof (recover_dead_done ls _ _ (fun H : st_h (init rh0 acts) = HDead => ltac:(discriminate H)) R) as J.
+  unfold terminal in T. simpl.
   destruct (st_h s) as [[|a rest]| |] eqn:Eh.
   - left. unfold h_step. rewrite Eh. eauto.
-  - left. unfold h_step. rewrite Eh. destruct (do_action (st_tw s) a) as [t' o].
-    destruct o; [| | |destruct recover]; eauto.
+  - left. unfold h_step. rewrite Eh. destruct (do_action (st_tw s) a) as [t' o]. destruct o; eauto.
   - left. unfold h_step. rewrite Eh. destruct (write_header_locked (st_tw s) statusInternalServerError); eauto.
-  - right. destruct (st_sel s) eqn:Es; [discriminate|]. destruct (F3 eq_refl) as [D|P].
-    + exists ArmDone. unfold sel_step. rewrite Es, D. eauto.
-    + exists ArmPanic. unfold sel_step. rewrite Es, P. eauto.
+  - right. destruct (st_sel s) eqn:Es; [discriminate|].
+    exists ArmDone. unfold sel_step. rewrite Es, (J eq_refl). eauto.
 Qed.
+
+(* without Recover an unseen panic (panic(nil) under go 1.19 semantics) ends the handler goroutine with neither
+   close(done) nor a send on panicChan: ServeHTTP sits in its select until the deadline -- computed witness *)
+Lemma no_recover_nil_panic_stuck :
+  exists s, run false [LH] (init [] [PanicA PVNil]) = Some s /\ terminal s = false /\
+            step false LH s = None /\ (forall a, step false (LSel a) s = None).
+Proof. eexists. split; [reflexivity|]. split; [reflexivity|]. split; [reflexivity|]. intros [| |]; reflexivity. Qed.
 
 Lemma terminal_no_step recover s : terminal s = true ->
   step recover LH s = None /\ forall a, step recover (LSel a) s = None.
@@ -459,22 +506,40 @@ Qed.
 Lemma commit_none_body pre : commit_status pre = None -> spec_body pre = [].
 Proof. induction pre as [|a r IH]; simpl; [auto|]. destruct a; simpl; auto; discriminate. Qed.
 
-Lemma panic_uncommitted_500 rh0 pre a post :
-  has_panic pre = false -> panics a = true -> commit_status pre = None ->
-  handler_response true rh0 (pre ++ a :: post) =
-  Some (mkresp statusInternalServerError (hmerge rh0 (spec_headers pre)) []).
+Lemma first_panic_app pre a post : has_panic pre = false -> panics a = true ->
+  first_panic (pre ++ a :: post) = Some (panic_value_of a).
 Proof.
-  intros H Ha Hc. unfold handler_response. destruct (effective_app pre a post H Ha) as [-> ->]. simpl.
-  rewrite Hc, (commit_none_body _ Hc). reflexivity.
+  intros H Ha. induction pre as [|b r IH]; simpl in *; [rewrite Ha; reflexivity|].
+  apply orb_false_iff in H as [Hb Hr]. rewrite Hb. auto.
 Qed.
 
-Lemma panic_committed_keeps rh0 pre a post c :
+(* a panic before any commit: 500 iff the guards notice the value, else the implicit 200 *)
+Lemma panic_uncommitted_status sees rh0 pre a post :
+  has_panic pre = false -> panics a = true -> commit_status pre = None ->
+  handler_response_gen sees true rh0 (pre ++ a :: post) =
+  Some (mkresp (if sees (panic_value_of a) then statusInternalServerError else statusOK) (hmerge rh0 (spec_headers pre)) []).
+Proof.
+  intros H Ha Hc. unfold handler_response_gen, panic_seen. destruct (effective_app pre a post H Ha) as [-> ->].
+  rewrite (first_panic_app pre a post H Ha). simpl. rewrite Hc, (commit_none_body _ Hc). reflexivity.
+Qed.
+
+Lemma panic_committed_keeps sees rh0 pre a post c :
   has_panic pre = false -> panics a = true -> commit_status pre = Some c ->
-  handler_response true rh0 (pre ++ a :: post) =
+  handler_response_gen sees true rh0 (pre ++ a :: post) =
   Some (mkresp c (hmerge rh0 (spec_headers pre)) (spec_body pre)).
 Proof.
-  intros H Ha Hc. unfold handler_response. destruct (effective_app pre a post H Ha) as [-> ->]. simpl.
+  intros H Ha Hc. unfold handler_response_gen. destruct (effective_app pre a post H Ha) as [-> ->]. simpl.
   rewrite Hc. reflexivity.
+Qed.
+
+(* the code's response is the property's response unless the first panic carries a value the guards do not
+   notice and nothing was committed *)
+Lemma response_is_spec_unless_unseen recover rh0 acts :
+  match first_panic acts with Some v => recover_sees v = true | None => True end ->
+  handler_response recover rh0 acts = spec_response recover rh0 acts.
+Proof.
+  intro H. unfold handler_response, spec_response, handler_response_gen, panic_seen.
+  destruct (first_panic acts) as [v|]; [rewrite H|]; reflexivity.
 Qed.
 
 Lemma no_panic_effective acts : has_panic acts = false -> effective acts = acts.
@@ -488,8 +553,9 @@ Proof. unfold maxbytes_rejects. lia. Qed.
 
 Lemma gate_rejects recover rh0 n clen acts : maxbytes_rejects n clen = true ->
   gated_script n clen acts = [WriteHeader statusRequestEntityTooLarge] /\
-  handler_response recover rh0 (gated_script n clen acts) = Some (mkresp statusRequestEntityTooLarge rh0 []).
-Proof. unfold gated_script. intros ->. split; reflexivity. Qed.
+  handler_response recover rh0 (gated_script n clen acts) = Some (mkresp statusRequestEntityTooLarge rh0 []) /\
+  spec_response recover rh0 (gated_script n clen acts) = Some (mkresp statusRequestEntityTooLarge rh0 []).
+Proof. unfold gated_script. intros ->. repeat split; reflexivity. Qed.
 
 Lemma gate_passes n clen acts : maxbytes_rejects n clen = false -> gated_script n clen acts = acts.
 Proof. unfold gated_script. intros ->. reflexivity. Qed.
